@@ -1055,13 +1055,14 @@ def build_forest(im, spec, log):
     objs = []
     for i, (p, a, b) in enumerate(spec):
         if p is None:
+            # a root is declared the way the library declares `meter`: placeholder callables that must never be used
             def up(x, i=i):
                 log.append((i, True))
-                return x
+                return None
 
             def down(x, i=i):
                 log.append((i, False))
-                return x
+                return None
         else:
             def up(x, i=i, a=a, b=b):
                 log.append((i, True))
@@ -1193,13 +1194,14 @@ def build_reent(im, spec, log):
     for i, e in enumerate(spec):
         p = e[0]
         if p is None:
+            # placeholder callables, like the library's own root unit: never used by a correct convert()
             def up(x, i=i):
                 log.append((i, True))
-                return x
+                return None
 
             def down(x, i=i):
                 log.append((i, False))
-                return x
+                return None
         elif e[1] == "aff":
             def up(x, i=i, a=e[2], b=e[3]):
                 log.append((i, True))
